@@ -1,6 +1,6 @@
 (* Step.v - the public surface as one operation type acting on a pool of live frames;
    step: the model's transition function.  Definitions only. *)
-From GF Require Export Csv.
+From GF Require Export Csv View.
 
 Inductive val :=
 | VNone
@@ -11,7 +11,8 @@ Inductive val :=
 | VBytes (s : str)
 | VFloats (m : list (str * fl))
 | VGroups (g : groups)                       (* groups in KeyOrder *)
-| VFilter (f : frame) (seen : list rowmap).  (* new frame + the rows the predicate saw *)
+| VFilter (f : frame) (seen : list rowmap)   (* new frame + the rows the predicate saw *)
+| VCells (n : str) (l : list cell).          (* a column name and some of its cells *)
 
 Inductive op :=
 (* deriving operations: the result is a new frame *)
@@ -41,6 +42,12 @@ Inductive op :=
 | ONrows (f : nat)
 | ONcols (f : nat)
 | OAgg (f : nat) (k : aggk)
+| OString (f : nat)
+| OSelect (f : nat) (name : str)
+| OColAt (f : nat) (name : str) (i : Z)
+| OSeries (f : nat) (name : str) (i : Z)
+| OPlot (bar : bool) (f : nat) (x y : str) (path_ok render_ok : bool)
+| OGroupbyOther (f : nat) (accepted : bool)
 (* in-place edits *)
 | OAppendRow (f : nat) (r : rowmap)
 | ODropRow (f : nat) (i : Z)
@@ -111,6 +118,12 @@ Definition step (O : oracles) (p : pool) (o : op) : out val * pool :=
   | ONrows i => observe p (with_frame p i (fun f => Ok (VInt (Z.of_nat (nrows f)))))
   | ONcols i => observe p (with_frame p i (fun f => Ok (VInt (Z.of_nat (ncols f)))))
   | OAgg i k => observe p (with_frame p i (fun f => lift VFloats (op_agg O k f)))
+  | OString i => observe p (with_frame p i (fun f => Ok (VBytes (op_string O f))))
+  | OSelect i name => observe p (with_frame p i (fun f => lift (fun nc => VCells (fst nc) (snd nc)) (op_select f name)))
+  | OColAt i name n => observe p (with_frame p i (fun f => lift (fun nc => VCells (fst nc) (snd nc)) (op_colat f name n)))
+  | OSeries i name n => observe p (with_frame p i (fun f => lift (fun nc => VCells (fst nc) (snd nc)) (op_series f name n)))
+  | OPlot bar i x y pk rk => observe p (with_frame p i (fun f => lift (fun _ => VNone) (op_plot bar f x y pk rk)))
+  | OGroupbyOther i acc => observe p (with_frame p i (fun _ => lift VGroups (op_groupby_other acc)))
   | OAppendRow i r => edit p i (with_frame p i (fun f => Ok (op_append_row f r)))
   | ODropRow i n => edit p i (with_frame p i (fun f => op_droprow f n))
   | OFillNa i v => edit p i (with_frame p i (fun f => Ok (op_fillna f v)))
@@ -146,6 +159,7 @@ Definition val_same (a b : val) : bool :=
   | VGroups x, VGroups y =>
     list_eqb (fun p q => cell_same (fst p) (fst q) && list_eqb row_same (snd p) (snd q)) x y
   | VFilter f s, VFilter f' s' => frame_same f f' && list_eqb row_same s s'
+  | VCells n l, VCells n' l' => str_eqb n n' && cells_same l l'
   | _, _ => false
   end.
 Definition out_same (a b : out val) : bool :=
